@@ -16,7 +16,7 @@ cleanup() { git -C /repo worktree remove --force "$WT" 2>/dev/null; rm -rf "$WT"
 trap cleanup EXIT
 TESTNAME=$(grep -o 'func TestDemo[A-Za-z0-9_]*' "$D/demo_test.go" | head -1 | sed 's/func //')
 res() { echo "{\"dir\": \"$D\", \"property\": \"$PROP\", $1}"; }
-if ! git -C "$WT" apply "$D/patch.diff" 2>/tmp/seed.err; then res "\"confirmed\": false, \"why\": \"patch does not apply\""; exit 1; fi
+if ! git -C "$WT" apply "$D/patch.diff" 2>/tmp/seed.err && ! git -C "$WT" apply --3way "$D/patch.diff" 2>>/tmp/seed.err; then res "\"confirmed\": false, \"why\": \"patch does not apply\""; exit 1; fi
 if ! (cd "$WT" && go build ./... >/dev/null 2>&1); then res "\"confirmed\": false, \"why\": \"does not build\""; exit 1; fi
 for i in 1 2 3; do
   if ! (cd "$WT" && go test -vet=off -count=1 ./... >/tmp/seed.suite 2>&1); then res "\"confirmed\": false, \"why\": \"repository suite fails with the mutant\""; exit 1; fi
@@ -28,7 +28,7 @@ rm "$WT/zz_demo_test.go"
 git -C "$WT" checkout -- . ; cp "$D/demo_test.go" "$WT/zz_demo_test.go"
 if ! (cd "$WT" && go test -vet=off -count=1 -run "^$TESTNAME\$" . >/tmp/seed.demo2 2>&1); then res "\"confirmed\": false, \"why\": \"demo fails without the mutant\""; exit 1; fi
 rm "$WT/zz_demo_test.go"
-git -C "$WT" apply "$D/patch.diff"
+git -C "$WT" apply "$D/patch.diff" 2>/dev/null || git -C "$WT" apply --3way "$D/patch.diff"
 CAUGHT=""; MISSED=""
 for P in $PROPS; do
   OUT=$(cd /verif && VERIF_REPO="$WT" ./check $P --tier quick 2>&1)
